@@ -296,6 +296,85 @@ func checkC11(w *Worker) {
 		c11Quantities(book, x.Choose(3, "input:quantities"))
 		c11Body(x, book, n, api, "acyclic")
 	})
+	// books beyond any "small book" shortcut (more than 64, more than 128 recipes), resolved as thread "main" of the scheduler:
+	// if the depth rule is evaluated by goroutines, their lock, channel and atomic operations are explored (one departure
+	// from the default schedule). Forced to collide: every top-level recipe goes through the same chain of sub-recipes.
+	// Against the two limits that matter (N = longest chain: refused; N = longest chain + 1: accepted) and with a cycle.
+	w.Explore("large-books-under-the-scheduler", ExploreOpts{ShardDepth: 4, Budgets: map[string]int{"env:maporder": 0, "appsched": 1}}, func(x *Exec) {
+		api := x.Choose(2, "input:api")
+		tops := []int{70, 140}[x.Choose(2, "input:top-level-recipes")]
+		chain := 1 + x.Choose(3, "input:shared-chain")  // 1..3 shared sub-recipes in a row
+		shape := x.Choose(4, "input:shape-of-the-book") // shared chain; + a two-recipe cycle; + a self-reference; declared backwards
+		tight := x.Choose(2, "input:limit")             // 0: N = longest chain, 1: N = longest chain + 1
+		book := absBook{}
+		for i := 0; i < chain; i++ {
+			next := "leaf"
+			if i+1 < chain {
+				next = fmt.Sprintf("mid-%d", i+1)
+			}
+			book = append(book, absRecipe{fmt.Sprintf("mid-%d", i), []absIng{{next, 2}, {"salt", 1}}})
+		}
+		for i := 0; i < tops; i++ {
+			book = append(book, absRecipe{fmt.Sprintf("meal-%03d", i), []absIng{{"mid-0", float64(1 + i%3)}, {fmt.Sprintf("el-%d", i%5), 2}}})
+		}
+		switch shape {
+		case 1:
+			book = append(book, absRecipe{"loop-a", []absIng{{"loop-b", 1}}}, absRecipe{"loop-b", []absIng{{"loop-a", 1}, {"mid-0", 1}}})
+		case 2:
+			book = append(book, absRecipe{"self", []absIng{{"mid-0", 1}, {"self", 1}}})
+		case 3:
+			for l, r := 0, len(book)-1; l < r; l, r = l+1, r-1 {
+				book[l], book[r] = book[r], book[l]
+			}
+		}
+		hs := refHeight(book)
+		mh := maxHeight(hs)
+		n := 10
+		if mh < infHeight {
+			n = mh + tight
+		} else if tight == 1 {
+			n = 50
+		}
+		wantErr := mh >= n
+		db := book.toDB()
+		installMapOrder(x, "env:maporder")
+		var err error
+		finished := false
+		s := NewSched(x)
+		s.Class = "appsched"
+		s.Go("main", func() {
+			err = resolveVia(api, db, n)
+			finished = true
+		})
+		func() {
+			defer uninstallMapOrder()
+			s.Run()
+		}()
+		if s.Stalled {
+			x.Case("skip: not schedulable", false)
+			x.Note("schedule_exploration_abandoned", 1)
+			return
+		}
+		got := "ok"
+		if err != nil {
+			got = err.Error()
+		}
+		x.Obs(got)
+		x.Case(fmt.Sprint("large", api, tops, chain, shape, tight, len(s.Trace)), true)
+		x.Note("scheduler_transitions", int64(len(s.Trace)))
+		what := fmt.Sprintf("%d recipes through a shared chain of %d (shape %d), N=%d via %s, schedule %v", tops, chain, shape, n, apiNames[api], tailStr(fmt.Sprint(s.Trace), 600))
+		rep := map[string]interface{}{"api": apiNames[api], "recipes": len(book), "N": n, "longest_chain": heightStr(mh), "schedule": s.Trace, "observed": got}
+		switch {
+		case len(s.Panics) > 0 || !finished:
+			x.Violate("C11|large-book|panics-or-does-not-return", fmt.Sprintf("%s: panics %v, returned %v (%v)", what, s.Panics, finished, s.ParkedAtEnd()), rep)
+		case err != nil && !strings.Contains(got, depthErrText):
+			x.Violate("C11|large-book|unexpected-error", what+": "+got, rep)
+		case wantErr && err == nil:
+			x.Violate("C11|large-book|chain-ge-N-or-cycle-accepted", fmt.Sprintf("%s: longest reference chain is %s (>= N) but resolution succeeded", what, heightStr(mh)), rep)
+		case !wantErr && err != nil:
+			x.Violate("C11|large-book|chain-lt-N-rejected", fmt.Sprintf("%s: longest reference chain is %d (< N) but resolution failed: %s", what, mh, got), rep)
+		}
+	})
 	// call sequences: a program that resolves several books in one process. Whatever an earlier call did - succeed, hit the
 	// limit, meet a cycle - the outcome for the next book is the outcome it has on its own (sorted visiting order both times)
 	polluters := []struct {
